@@ -241,6 +241,8 @@ def run(F, rep):
         if o["rule"] in ("C02-IDMAP", "C02-CARD", "C02-SEP", "C02-PLACEHOLDER"):
             rep.ob("C01-ID", o["instance"], o["ok"], detail=o["detail"], site=o["site"], key=o["key"].replace("C02-", "C01-ID/"))
     c09.alpha_rules(F, rep, "C01")
+    c09.empty_rules(F, rep, "C01")     # "empty delta = copy of the reference" is only sound if the encoder emits it for equal segments only
+    c09.pred_rules(F, rep, "C01")
     c09.back_rules(F, rep, "C01")      # the LZ encoder's backward-extension budget: a delta that decodes short breaks the round trip
 
 
